@@ -83,7 +83,7 @@ CLAIMS = {
     'C20': dict(
         text='evaluate is proved to return interp(nodes, inputs, output) for every well-formed graph of any size (loop invariant values[j] == interp(j)); populate_inputs places every named vector at its declared '
              'offset independent of map order; node / operator storage conversions round-trip for every node.',
-        note='Operator semantics uninterpreted here (C19); prost framing, WriteBackReader and calc_witness glue not decided. Known finding: `as u32` index truncation for graphs above 2^32 nodes.',
+        note='Operator semantics are uninterpreted in unit graph_eval and decided by the Kani unit graph_ops_fr (eval_fr and its helpers, also run for this property); prost framing, WriteBackReader and calc_witness glue not decided. Known finding: `as u32` index truncation for graphs above 2^32 nodes.',
         design='DESIGN.md §4 C20'),
 }
 
